@@ -86,10 +86,10 @@ Definition V_CFG := bs "c12".
 Definition TPL_OPEN := bs "{{".
 Definition PANIC_MARK := bs "[PANIC]".
 Definition ERRTEXT := bs "c12err".
-(* gzip.SkipCompressedFilter *)
+(* gzip.SkipCompressedFilter: any Content-Encoding other than "" / identity is left alone *)
 Definition ce_listed (v : option bytes) : bool :=
   match v with
-  | Some c => beq c (bs "gzip") || beq c (bs "compress") || beq c (bs "deflate") || beq c (bs "br")
+  | Some c => negb (beq c [] || beq c (bs "identity"))
   | None => false
   end.
 
@@ -212,7 +212,7 @@ Definition c_wr (g : seg) (x : st) : out :=
               else Done (set_conn x1 (cm x1) (chdr x1) (csnap x1) (g :: body x1) (sup x1))
   | None => Done x1
   end.
-(* every wrapper's Flush is ResponseWriterWrapper.Flush: it reaches net/http directly *)
+(* net/http's Flush commits 200 when nothing was committed *)
 Definition c_fl (x : st) : out := Done (match cm x with Some _ => x | None => commit 200 x end).
 
 (* httpserver.DefaultErrorFunc / WriteTextResponse on a given writer level *)
@@ -225,13 +225,15 @@ Definition text_response (wh : Z -> st -> out) (wr : bytes -> st -> out) (code :
 Definition gzh_wh (s : Z) (x : st) : out :=
   let x1 := set_chdr x (hset (hdel (chdr x) K_CL) K_CE V_GZIP) in
   bnd (c_wh s x1) (fun y => Done (set_gz y (gz_on y) (gz_fw y) (gz_comp y) true (gz_created y) (gz_hdr_out y) (gz_pend y))).
-(* ResponseFilterWriter.WriteHeader *)
+(* ResponseFilterWriter.WriteHeader: the filters decide on the first call only *)
 Definition g_wh (s : Z) (x : st) : out :=
   if gz_on x then
-    let comp := negb (ce_listed (hget (chdr x) K_CE)) in
-    let x1 := set_gz x true (gz_fw x) comp (gz_wrote x) (gz_created x || comp) (gz_hdr_out x) (gz_pend x) in
-    bnd (if comp then gzh_wh s x1 else c_wh s x1)
-        (fun y => Done (set_gz y (gz_on y) true (gz_comp y) (gz_wrote y) (gz_created y) (gz_hdr_out y) (gz_pend y)))
+    if gz_fw x then (if gz_comp x then gzh_wh s x else c_wh s x)
+    else
+      let comp := negb (ce_listed (hget (chdr x) K_CE)) in
+      let x1 := set_gz x true (gz_fw x) comp (gz_wrote x) (gz_created x || comp) (gz_hdr_out x) (gz_pend x) in
+      bnd (if comp then gzh_wh s x1 else c_wh s x1)
+          (fun y => Done (set_gz y (gz_on y) true (gz_comp y) (gz_wrote y) (gz_created y) (gz_hdr_out y) (gz_pend y)))
   else c_wh s x.
 Definition g_wr (b : bytes) (x : st) : out :=
   if gz_on x then
@@ -242,6 +244,10 @@ Definition g_wr (b : bytes) (x : st) : out :=
             Done (set_gz x3 (gz_on x3) (gz_fw x3) (gz_comp x3) (gz_wrote x3) true true (gz_pend x3 ++ b))))
       else c_wr (Raw b) x1)
   else c_wr (Raw b) x.
+(* ResponseFilterWriter.Flush: the header goes out through the filters first. The wrappers
+   above (templates' ResponseBuffer, header's wrapper) only forward Flush. *)
+Definition g_fl (x : st) : out :=
+  if gz_on x then bnd (if gz_fw x then Done x else g_wh 200 x) c_fl else c_fl x.
 (* deferred putWriter: Close of a writer that was handed out *)
 Definition g_close (x : st) : out :=
   if gz_on x && gz_created x then
@@ -292,7 +298,7 @@ Definition step (o : op) (x : st) : out :=
   | OSet k v => Done (b_sethdr k v x)
   | OWh s => b_wh s x
   | OWr b => b_wr b x
-  | OFl => c_fl x
+  | OFl => g_fl x
   | OPanic => Pan x
   end.
 Fixpoint run_script (ops : list op) (x : st) : out :=
@@ -361,7 +367,14 @@ Definition error_page (m : emode) (code : Z) (x : st) : out :=
   match find_page m code with
   | Some (Some content) =>
       let x1 := set_chdr x (hset (chdr x) K_CT V_HTML) in
-      bnd (h_wh code x1) (fun y => match content with [] => Done y | _ => h_wr content y end)
+      (* io.Copy fails (http.ErrBodyNotAllowed) when the handler had already committed a
+         status without body; errorPage then falls back to DefaultErrorFunc *)
+      let refused := match cm x with Some s => bodyless s | None => false end in
+      bnd (h_wh code x1) (fun y =>
+        match content with
+        | [] => Done y
+        | _ => bnd (h_wr content y) (fun z => if refused then default_error3 code z else Done z)
+        end)
   | Some None => default_error3 code x
   | None => default_error3 code x
   end.
